@@ -22,7 +22,7 @@ S(x) == {x[i] : i \in DOMAIN x}
 RegOf(s)  == [w \in Waiters |-> IF \E i \in DOMAIN s.reg : s.reg[i][1] = w
                                 THEN s.reg[CHOOSE i \in DOMAIN s.reg : s.reg[i][1] = w][2] ELSE NoCode]
 WaitOf(s) == LET r == RegOf(s) IN [c \in InRange |-> {w \in S(s.park) \cap Waiters : r[w] = c}]
-Lab(x) == [op |-> x.op, ws |-> S(x.ws), cs |-> S(x.cs), rel |-> S(x.rel), n |-> x.n, pan |-> x.pan]
+Lab(x) == [op |-> x.op, ws |-> S(x.ws), cs |-> S(x.cs), dl |-> x.dl, rel |-> S(x.rel), n |-> x.n, pan |-> x.pan]
 Load(s) == /\ via' = s.via /\ reg' = RegOf(s) /\ called' = {} /\ waiting' = WaitOf(s)
            /\ released' = {} /\ returned' = S(s.done) /\ UNCHANGED hist
 Same(s) == /\ via = s.via /\ reg = RegOf(s) /\ waiting = WaitOf(s) /\ returned = S(s.done)
